@@ -6,6 +6,7 @@ CONSTANTS
   NegAttempts = 10
   MaxLoss = 6
   MaxNegLoss = 3
+  MaxRestarts = 0
   PeerModes <- ModesSL
   DenyReplies <- DenyMany
   AckTails <- TailsRssi
